@@ -642,14 +642,14 @@ fn copy_entry(c: &mut Ctx, fs: &mut MFs, sk: &str, target: &str, visiting: &mut 
                                 }
                             }
                             _ => {
-                                fs.nodes.get_mut(&tkey).unwrap().origin = Origin::Open;
                                 fail(c.ex, format!("directory {} onto a link that does not lead to a directory ({})", sk, tkey));
-                                return;
+                                fs.nodes.insert(tkey.clone(), MNode { kind: MKind::Dir, mode: None, mtime: MTime::Any, xattrs: vec![], owner: None, origin: Origin::NewDir, hl: None });
                             }
                         }
                     } else {
+                        // cannot succeed; should the run claim success anyway, a directory is what belongs here
                         fail(c.ex, format!("directory {} onto existing non-directory {}", sk, tkey));
-                        return;
+                        fs.nodes.insert(tkey.clone(), MNode { kind: MKind::Dir, mode: None, mtime: MTime::Any, xattrs: vec![], owner: None, origin: Origin::NewDir, hl: None });
                     }
                 }
             }
@@ -689,7 +689,13 @@ fn copy_entry(c: &mut Ctx, fs: &mut MFs, sk: &str, target: &str, visiting: &mut 
                 Some(e) if !matches!(e.kind, MKind::File(_)) => {
                     // a directory or special file in the way of a regular file
                     if e.kind == MKind::Dir {
+                        // cannot succeed; should the run claim success anyway, the file is what belongs here
                         fail(c.ex, format!("file {} onto existing directory {}", sk, tkey));
+                        let below: Vec<String> = fs.nodes.keys().filter(|k| k.starts_with(&format!("{}/", tkey))).cloned().collect();
+                        for k in below {
+                            fs.nodes.remove(&k);
+                        }
+                        fs.nodes.insert(tkey.clone(), MNode { kind: MKind::File(content.clone()), mode: None, mtime: MTime::Any, xattrs: vec![], owner: None, origin: Origin::Copied, hl: None });
                     } else {
                         fs.nodes.get_mut(&tkey).unwrap().origin = Origin::Open;
                     }
